@@ -18,7 +18,7 @@ from .c09 import ConstRandom
 def close(a, b, exact):
     if exact:
         return F(a) == F(b)
-    return abs(a - b) <= 1e-9 * max(1.0, abs(a), abs(b))
+    return abs(a - b) <= 1e-12 * max(1.0, abs(a), abs(b))
 
 
 def check_same(rin, rout):
